@@ -145,6 +145,31 @@ func (m OwnPodsAndNodes) AfterScan(ctx *h.ScanCtx) []h.Violation {
 	return out
 }
 
+// AllGroupsProcessed: unless the scan ends with an error (the documented stops), every configured
+// group is processed in every scan, however long the groups before it took.
+type AllGroupsProcessed struct{}
+
+func (AllGroupsProcessed) Key() string { return "" }
+func (AllGroupsProcessed) AfterScan(ctx *h.ScanCtx) []h.Violation {
+	if ctx.Res.Err != nil || ctx.Res.Panic != nil || ctx.Res.Killed || ctx.Res.Exit || ctx.Res.Hang {
+		return nil
+	}
+	var out []h.Violation
+	seen := map[string]bool{}
+	for _, e := range ctx.Entries {
+		if e.Phase == "group" {
+			seen[e.Group] = true
+		}
+	}
+	for _, g := range ctx.Groups {
+		if !seen[g.Name] {
+			out = append(out, h.Violation{Prop: "C12", Sig: "C12/group-not-processed",
+				Msg: fmt.Sprintf("scan %d: the scan ended without an error but group %s was never processed (no pod / node listing for it)", ctx.Scan, g.Name)})
+		}
+	}
+	return out
+}
+
 // NonInterference compares the journal of every group other than the perturbed one with the
 // journal of the unperturbed (root) execution of the same scenario, scan by scan.
 type NonInterference struct {
@@ -409,6 +434,15 @@ func C12Scenarios(tier string) []*h.Scenario {
 		}
 		return s
 	}
+	// the same with a fleet ready timeout as long as the scan interval (the documented defaults: 1m / 1m):
+	// the first group's failing scale-up takes a whole interval, the second group is processed all the same
+	fleetSlow := func() *h.Scenario {
+		s := fleet()
+		s.Name = "c12.fleet-two.timeout-equals-scan-interval"
+		s.FleetTimeout = Q
+		s.Slots = 3
+		return s
+	}
 	// group a selects by a label key in a reserved Kubernetes domain; the default group must not pick up a's pods
 	reserved := func() *h.Scenario {
 		s := mk("c12.reserved-key-default", []string{"a", "default"})
@@ -443,6 +477,7 @@ func C12Scenarios(tier string) []*h.Scenario {
 	return []*h.Scenario{
 		reserved(),
 		fleet(),
+		fleetSlow(),
 		empty("c12.a-emptyb", []string{"a", "b"}),
 		mk("c12.a-b", []string{"a", "b"}),
 		mk("c12.b-a", []string{"b", "a"}),
@@ -550,10 +585,10 @@ func init() {
 		Scenarios: C12Scenarios,
 		Grid:      c12ProviderMapping,
 		MonitorsFor: func(s *h.Scenario) []h.Monitor {
-			if s.Name == "c12.fleet-two" {
-				return []h.Monitor{Attribution{}, &FleetExitAttribution{}, &NearMiss{Seen: map[string]struct{}{}}}
+			if strings.HasPrefix(s.Name, "c12.fleet-two") {
+				return []h.Monitor{Attribution{}, &FleetExitAttribution{}, AllGroupsProcessed{}, &NearMiss{Seen: map[string]struct{}{}}}
 			}
-			return []h.Monitor{Attribution{}, &FleetExitAttribution{}, &NonInterference{S: s, Perturb: "a"}, OwnPodsAndNodes{NewDecisions()}, &NearMiss{Seen: map[string]struct{}{}}}
+			return []h.Monitor{Attribution{}, &FleetExitAttribution{}, &NonInterference{S: s, Perturb: "a"}, OwnPodsAndNodes{NewDecisions()}, AllGroupsProcessed{}, &NearMiss{Seen: map[string]struct{}{}}}
 		},
 		Bound: func(tier string) int {
 			if tier == "thorough" {
